@@ -1280,6 +1280,10 @@ class Scalar(Qube):
 
         self._check_axis(axis, 'sort()')        # make sure axis input is valid
 
+        # With axis=None, NumPy sorts the flattened array; nothing to sort here
+        if axis is None and self._size_ <= 1:
+            return self.wod.reshape((self._size_,))
+
         if self._size_ == 0:
             return self.wod
 
